@@ -1,0 +1,250 @@
+//! Verification hooks, compiled only with the cargo feature `verif-hooks` (off by default).
+//!
+//! Nothing in this module changes the behaviour of the crate: it re-exports crate-private items so that an
+//! out-of-tree harness can drive them in-process, and it offers an event log (persistent writes, table writes,
+//! lock acquisitions, EVM runs) plus a failpoint that aborts the process before the n-th persistent write.
+#![allow(missing_docs)]
+
+use std::sync::atomic::{AtomicBool, AtomicU64, Ordering};
+use std::sync::Mutex;
+
+pub use crate::api::types::{decode_bytes_from_inscription_data, select_bytes};
+pub use crate::api::INDEXER_METHODS;
+pub use crate::brc20_controller::{
+    decode_brc20_balance_result, load_brc20_balance_tx, load_brc20_burn_tx, load_brc20_deploy_tx,
+    load_brc20_mint_tx,
+};
+pub use crate::db::verif_reexports::{
+    BlockCachedDatabase, BlockDatabase, BlockHistoryCache, BlockHistoryCacheData,
+};
+pub use crate::db::types::*;
+pub use crate::db::Brc20ProgDatabase;
+pub use crate::engine::{get_evm_address_from_pkscript, BRC20ProgEngine, TxInfo};
+pub use crate::global::database::{validate_config_database, ConfigDatabase};
+pub use crate::global::*;
+
+/// Gas helpers of `engine::utils`.
+pub fn get_gas_limit(inscription_byte_len: u64) -> u64 {
+    crate::engine::verif_get_gas_limit(inscription_byte_len)
+}
+
+/// Inverse helper of `engine::utils`.
+pub fn get_inscription_byte_len(gas_limit: u64) -> u64 {
+    crate::engine::verif_get_inscription_byte_len(gas_limit)
+}
+
+/// The real RPC module (`RpcServer { engine }.into_rpc()`), without the HTTP layer.
+pub fn rpc_methods(engine: BRC20ProgEngine) -> jsonrpsee::Methods {
+    crate::server::verif_rpc_methods(engine)
+}
+
+/// The real auth middleware stack and server, exactly as `start()` builds it, for an already opened engine.
+pub async fn start_rpc_server(
+    engine: BRC20ProgEngine,
+    config: Brc20ProgConfig,
+) -> Result<jsonrpsee::server::ServerHandle, Box<dyn std::error::Error>> {
+    crate::server::verif_start_rpc_server(engine, config).await
+}
+
+static ENABLED: AtomicBool = AtomicBool::new(false);
+static WRITE_COUNT: AtomicU64 = AtomicU64::new(0);
+static ARMED_AT: AtomicU64 = AtomicU64::new(u64::MAX);
+static LOG: Mutex<Vec<String>> = Mutex::new(Vec::new());
+
+/// Turns event recording on or off (process wide).
+pub fn set_enabled(on: bool) {
+    ENABLED.store(on, Ordering::SeqCst);
+}
+
+/// True when events are being recorded.
+pub fn enabled() -> bool {
+    ENABLED.load(Ordering::Relaxed)
+}
+
+/// Takes all recorded events.
+pub fn take_events() -> Vec<String> {
+    let mut guard = match LOG.lock() {
+        Ok(g) => g,
+        Err(e) => e.into_inner(),
+    };
+    std::mem::take(&mut *guard)
+}
+
+/// Appends an event line.
+pub fn event(line: String) {
+    if !enabled() {
+        return;
+    }
+    let mut guard = match LOG.lock() {
+        Ok(g) => g,
+        Err(e) => e.into_inner(),
+    };
+    guard.push(line);
+}
+
+/// Arms the failpoint: the process aborts right before the persistent write with this ordinal
+/// (0-based, counted from the last `reset_write_count`). `u64::MAX` disarms.
+pub fn arm_crash_at(ordinal: u64) {
+    ARMED_AT.store(ordinal, Ordering::SeqCst);
+}
+
+/// Resets the persistent write counter.
+pub fn reset_write_count() {
+    WRITE_COUNT.store(0, Ordering::SeqCst);
+}
+
+/// Number of persistent writes seen since the last reset.
+pub fn write_count() -> u64 {
+    WRITE_COUNT.load(Ordering::SeqCst)
+}
+
+/// Failpoint in front of every persistent (RocksDB) write: `op` is `put`, `del` or `flush`.
+pub fn fp(db: &str, op: &str, key: &[u8], value: Option<&[u8]>) {
+    let n = WRITE_COUNT.fetch_add(1, Ordering::SeqCst);
+    if n == ARMED_AT.load(Ordering::SeqCst) {
+        // A real process death: no destructors, no flushing.
+        std::process::abort();
+    }
+    if enabled() {
+        event(format!(
+            "W {} {} {} {}",
+            db,
+            op,
+            if key.is_empty() { "-".to_string() } else { hex::encode(key) },
+            value.map(hex::encode).unwrap_or_else(|| "-".to_string())
+        ));
+    }
+}
+
+/// Versioned-table write (`set` / `unset`) as issued by the database layer.
+pub fn table_write(table: &str, block: u64, key: &[u8], value: Option<&[u8]>) {
+    if enabled() {
+        event(format!(
+            "S {} {} {} {}",
+            table,
+            block,
+            hex::encode(key),
+            value.map(hex::encode).unwrap_or_else(|| "-".to_string())
+        ));
+    }
+}
+
+/// Lock event: `mode` is `r` or `w`, `what` is `acq` or `rel`.
+pub fn lock_event(lock: &str, mode: &str, what: &str, at: &std::panic::Location<'_>) {
+    if enabled() {
+        event(format!(
+            "L {} {} {} {:?} {}:{}",
+            lock,
+            mode,
+            what,
+            std::thread::current().id(),
+            at.file(),
+            at.line()
+        ));
+    }
+}
+
+/// Read guard that records its release; derefs to the protected value exactly like the std guard it wraps.
+pub struct TracedReadGuard<'a, T> {
+    pub(crate) guard: std::sync::RwLockReadGuard<'a, T>,
+    pub(crate) name: &'static str,
+    pub(crate) at: &'static std::panic::Location<'static>,
+}
+
+impl<'a, T> std::ops::Deref for TracedReadGuard<'a, T> {
+    type Target = T;
+    fn deref(&self) -> &T {
+        &*self.guard
+    }
+}
+
+impl<'a, T> Drop for TracedReadGuard<'a, T> {
+    fn drop(&mut self) {
+        lock_event(self.name, "r", "rel", self.at);
+    }
+}
+
+/// Records request / acquisition / release of a lock taken inside one of the closure accessors.
+pub struct LockSpan {
+    name: &'static str,
+    mode: &'static str,
+    at: &'static std::panic::Location<'static>,
+}
+
+impl LockSpan {
+    #[track_caller]
+    pub fn new(name: &'static str, mode: &'static str) -> Self {
+        let at = std::panic::Location::caller();
+        lock_event(name, mode, "req", at);
+        Self { name, mode, at }
+    }
+
+    pub fn acquired(&self) {
+        lock_event(self.name, self.mode, "acq", self.at);
+    }
+}
+
+impl Drop for LockSpan {
+    fn drop(&mut self) {
+        lock_event(self.name, self.mode, "rel", self.at);
+    }
+}
+
+/// One EVM run: the environment handed to revm and its outcome.
+pub fn evm_run(
+    kind: &str,
+    tx: &revm::context::TxEnv,
+    block: &revm::context::BlockEnv,
+    cfg: &revm::context::CfgEnv,
+    txid: alloy::primitives::B256,
+    custom_precompiles: usize,
+    result: Result<&revm::context::result::ExecutionResult, String>,
+) {
+    if !enabled() {
+        return;
+    }
+    let to = match tx.kind {
+        revm::primitives::TxKind::Call(a) => format!("{:x}", a),
+        revm::primitives::TxKind::Create => "create".to_string(),
+    };
+    let outcome = match result {
+        Ok(r) => format!(
+            "ok success={} gas={} logs={} out={} created={}",
+            r.is_success(),
+            r.gas_used(),
+            r.logs().len(),
+            r.output().map(|o| hex::encode(o)).unwrap_or_else(|| "-".to_string()),
+            match r {
+                revm::context::result::ExecutionResult::Success {
+                    output: revm::context::result::Output::Create(_, Some(a)),
+                    ..
+                } => format!("{:x}", a),
+                _ => "-".to_string(),
+            }
+        ),
+        Err(e) => format!("err {}", e.replace(' ', "_")),
+    };
+    event(format!(
+        "X {} caller={:x} to={} data={} nonce={} gaslimit={} gasprice={} value={} txchain={:?} number={} ts={} prevrandao={} basefee={} coinbase={:x} blockgaslimit={} chain={} spec={:?} txid={:x} custom={} | {}",
+        kind,
+        tx.caller,
+        to,
+        hex::encode(&tx.data),
+        tx.nonce,
+        tx.gas_limit,
+        tx.gas_price,
+        tx.value,
+        tx.chain_id,
+        block.number,
+        block.timestamp,
+        block.prevrandao.map(|h| format!("{:x}", h)).unwrap_or_else(|| "-".to_string()),
+        block.basefee,
+        block.beneficiary,
+        block.gas_limit,
+        cfg.chain_id,
+        cfg.spec,
+        txid,
+        custom_precompiles,
+        outcome
+    ));
+}
